@@ -62,6 +62,20 @@ func hookLock(try func() bool, lock func(), point string) {
 			}
 			runtime.Goexit()
 		}
+		// a goroutine the code under test started on its own may hold the mutex
+		// for a while (the connection's goroutine is asleep inside a handler, say):
+		// wait on the simulated clock, doubling up to hours, before calling it a
+		// deadlock. The time is free, and a mutex whose holder never runs again
+		// stays busy however long one waits.
+		for d := time.Microsecond; d < 3*time.Hour; d *= 2 {
+			bubbleSleep(d)
+			if try() {
+				return
+			}
+			if rt.isFrozen() {
+				runtime.Goexit()
+			}
+		}
 		rt.lockDead = point
 		<-rt.never
 		runtime.Goexit()
@@ -110,6 +124,7 @@ type connState struct {
 	*SimConn
 	retainedVals  []retained
 	Corrupt       []string
+	Incons        []string // what a callback found inconsistent by itself (e.g. a repeated Scan)
 	inHandler     int
 	cmdCtx        context.Context
 	EndCtx        string // "" / "live" / "done": state of the last command\'s context once the connection had ended (sampled before teardown)
